@@ -10,7 +10,7 @@ EXTENDS AnyVec, Json, TLC, TLCExt
 CONSTANTS Alpha,      \* set of enabled operation names
           MaxLen, MaxLenB, MaxExt, MaxOut, MaxRepl, MaxIters,
           MaxCap,     \* bound on the modelled capacity (models that track capacity)
-          MaxLazyDepth, MaxLazyN,
+          MaxLazyDepth, MaxLazyN, PushManyN,
           OneHandle,  \* TRUE: at most one vector has an outstanding handle at a time (bounds the product space)
           SinkKinds,  \* value-sink kinds explored: subset of {"drop","ext","push","insert","forget"}
           Srcs,       \* value-source kinds for push/insert/splice: subset of {"wrapper","raw","typed"}
@@ -91,7 +91,7 @@ Others(x) == OneHandle => \A w \in Vecs \ {x} : st.v[w].h.k = "none"
 
 Next ==
   \/ \E x \in Vecs : Quiet(st, x) /\ Others(x) /\
-       \/ "push" \in Alpha /\ (Len0(x) < CapOf(x) \/ Cfg.fixed) /\ \E src \in Srcs :
+       \/ "push" \in Alpha /\ (Len0(x) < CapOf(x) \/ Cfg.fixed) /\ Len0(x) < 64 /\ \E src \in Srcs :
             Do([op |-> "push", v |-> x, src |-> src])
        \/ "insert" \in Alpha /\ (Len0(x) < CapOf(x) \/ Cfg.fixed) /\ \E src \in Srcs, i \in 0..(Len0(x) + 1) :
             Do([op |-> "insert", v |-> x, i |-> i, src |-> src])
@@ -141,6 +141,8 @@ Next ==
             \/ st.ext # <<>> /\ Do([op |-> "swap", v |-> x, i |-> i, with |-> "raw", to |-> "", j |-> 0, side |-> side])
        \/ "spare" \in Alpha /\ \E k \in 0..2, via \in {"bytes", "typed"} :
             Len0(x) + k <= st.v[x].cap /\ Len0(x) + k <= CapOf(x) /\ Do([op |-> "spare_write", v |-> x, k |-> k, via |-> via])
+       \/ "place" \in Alpha /\ \E k \in 0..15 : Do([op |-> "place", v |-> x, off |-> 8 * k])
+       \/ "push_many" \in Alpha /\ Len0(x) = 0 /\ x = "a" /\ Do([op |-> "push_many", v |-> x, n |-> PushManyN])
        \/ "iter" \in Alpha /\ \E kind \in {"iter", "iter_mut", "titer", "titer_mut"} :
             Do([op |-> "iter_begin", v |-> x, kind |-> kind])
   \/ \E x \in Vecs : st.v[x].h.k = "tmp" /\
@@ -187,7 +189,8 @@ RenH(m, H) ==
     [] H.k = "range" -> [H EXCEPT !.pre = RenS(m, @), !.repl = RenS(m, @), !.out = RenS(m, @)]
     [] H.k = "items" -> [H EXCEPT !.out = RenS(m, @)]
     [] OTHER -> H
-View == LET m == RankMap(Ids(AllElems(st))) IN
+View == LET ids == Ids(AllElems(st))
+            m == IF Len(ids) > 24 THEN [x \in ToSet(ids) |-> x] ELSE RankMap(ids) IN     \* long amortisation runs: no renaming needed
         [v |-> [x \in Vecs |-> [st.v[x] EXCEPT !.el = IF st.v[x].h.k \in {"tmp", "range"} THEN <<>> ELSE RenS(m, @),
                                                !.h = RenH(m, @)]],
          ext |-> RenS(m, st.ext)]
